@@ -329,9 +329,22 @@ func genC14() *rapid.Generator[c14Case] {
 	return rapid.Custom(func(t *rapid.T) c14Case {
 		c := c14Case{V6: rapid.Bool().Draw(t, "v6"), CloseAt: -1}
 		n := rapid.SampledFrom([]int{0, 1, 2, 3, 5, 8, 13, 30, 80, 200}).Draw(t, "n")
+		// shapes: 0 mixed; 1 mostly malformed (long runs of bad datagrams); 2 every handler stays alive to the end
+		shape := rapid.SampledFrom([]int{0, 0, 0, 0, 1, 2}).Draw(t, "shape")
+		if shape != 0 {
+			n = rapid.SampledFrom([]int{130, 160, 200}).Draw(t, "nlong")
+		}
 		for i := 0; i < n; i++ {
 			r := c14Read{Kind: rapid.SampledFrom([]int{0, 0, 0, 0, 1, 2}).Draw(t, "kind"), Sender: rapid.IntRange(0, 4).Draw(t, "sender"),
 				Port: rapid.SampledFrom([]int{68, 68, 67, 1068, 546, 0, 65535}).Draw(t, "port"), Release: -1}
+			switch shape {
+			case 1:
+				if rapid.IntRange(0, 9).Draw(t, "mostlybad") != 0 {
+					r.Kind = rapid.SampledFrom([]int{1, 2}).Draw(t, "badkind")
+				}
+			case 2:
+				r.Kind = 0
+			}
 			switch r.Kind {
 			case 0:
 				if c.V6 {
@@ -362,6 +375,9 @@ func genC14() *rapid.Generator[c14Case] {
 				case 0:
 					r.Release = rapid.IntRange(0, n).Draw(t, "relpos")
 				case 1:
+					r.Release = 1 << 30
+				}
+				if shape == 2 {
 					r.Release = 1 << 30
 				}
 			case 1:
